@@ -24,6 +24,13 @@
 namespace internal {
 
 template <typename T>
+constexpr auto fmod_zero_sign(T const r, T const x) noexcept -> T
+{
+    // a zero remainder has the sign of the (finite) dividend
+    return (r == T(0) ? x * T(0) : r);
+}
+
+template <typename T>
 constexpr auto fmod_check(T const x, T const y) noexcept -> T
 {
     return ( // NaN check
@@ -35,7 +42,7 @@ constexpr auto fmod_check(T const x, T const y) noexcept -> T
             !is_finite(y) ? x
                           :
                           // else
-            x - trunc(x / y) * y
+            fmod_zero_sign(x - trunc(x / y) * y, x)
     );
 }
 
